@@ -1,8 +1,8 @@
 CONSTANTS AllCapsRule = FALSE
-          LatinLower = FALSE
+          LatinLower = TRUE
           MaxToks = 2
           MaxWord = 2
 INIT TInit
 NEXT TNext
-INVARIANTS LengthKept OnlyCase FirstCap Idempotent
+INVARIANTS FirstCap
 CHECK_DEADLOCK FALSE
